@@ -25,7 +25,7 @@ theorem first_n_is_prefix (p n : Nat) (hn : 1 ≤ n) (cb : Option Bool)
   | error err =>
     cases err with
     | halted c => simp [hf] at h; simp [h]
-    | corrupt =>
+    | corrupt _ =>
       -- the fold never reports corruption
       obtain ⟨h1, h2⟩ := fold_firstN (e :: es) { n := n } (by simp; omega)
       by_cases hlen : (e :: es).length < n
